@@ -7,6 +7,7 @@ Driver for C13.
      followed by  `|`  and one  S:…  token per Eb/N0 from the returned Vec<Statistics> (same fields)
   The scripted decoder gives every frame a unique id = its iteration count; bit errors = id mod 4 (at most k),
   success flag = (id mod 3 ≠ 0); so successive differences of the reported counters identify the consumed frames.
+  c13 sparse <k> <target> <points> <workers> => <R token>@<ebn0>… FIN | <R token>@<ebn0>…     (reporter interval 1 h, every frame in error)
   c13 fail <kind> => err | ok | panic | hang
 -/
 import LdpcV.Model.Proto
@@ -151,6 +152,27 @@ def handle (inp out : List String) : String :=
         verdict out0 out0 prop
       | _, _ => "BADLINE c13 tokens"
     | _, _, _ => "BADLINE c13 run"
+  | ["sparse", _k, target, npoints, _workers] =>
+    -- reporter with a long interval, every frame a frame error (one bit error each): the reports are exactly the returned statistics,
+    -- one per Eb/N0 point, then Finished; every point has exactly `target` frames, frame errors and bit errors
+    match target.toNat?, npoints.toNat? with
+    | some target, some npoints =>
+      let toks := out.takeWhile (· ≠ "|")
+      let finals := (out.dropWhile (· ≠ "|")).drop 1
+      let prop : Option String :=
+        if toks.getLast? ≠ some "FIN" then some "finished-report-is-not-last"
+        else if (toks.dropLast).contains "FIN" then some "finished-report-twice"
+        else if finals.length ≠ npoints then some s!"returned-{finals.length}-statistics-for-{npoints}-points"
+        else if toks.dropLast ≠ finals then
+          some s!"reports-are-not-exactly-one-final-statistics-per-point: {(toks.dropLast).length} statistics reports for {npoints} points"
+        else
+          match finals.mapM (fun t => parseRep ((t.splitOn "@").headD "")) with
+          | none => some "unreadable-statistics"
+          | some reps =>
+            if reps.all (fun r => r.nf == target && r.fe == target && r.be == target) then none
+            else some s!"a-point-did-not-stop-after-exactly-{target}-frame-errors"
+      verdict out out prop
+    | _, _ => "BADLINE c13 sparse"
   | ["fail", _kind] =>
     verdict ["err"] out (if out = ["err"] then none else some ("run-did-not-return-an-error: " ++ " ".intercalate out))
   | _ => "BADLINE c13 kind"
